@@ -155,7 +155,7 @@ theorem sr_newRender {ex : St → BOp → St} (hex : SRex ex) {a st : St} (h : S
 theorem sr_newAsync {ex : St → BOp → St} (hex : SRex ex) {a st : St} (h : SR a st) (b : Nat) :
     SR a (newAsync ex st b) := by
   unfold newAsync
-  have h1 : SR a (setMutDepth (pushEager st b EffKind.async) (st.mutDepth + 1)) :=
+  have h1 : SR a (setMutDepth (pushEager st b EffKind.async) st.mutDepth) :=
     SR.react (st := pushEager st b EffKind.async) (sr_pushEager h _ _) rfl
   have h2 := sr_runScoped hex h1 st.effs.length (eagerOwner st) b
   refine sr_finishAsync (sr_addTask ?_ _) _
